@@ -1,11 +1,8 @@
 //! development entry point (feature `dev`): sub-commands still being written + an ad-hoc SQL runner
-mod c09;
-mod vals;
 use std::sync::Arc;
 fn main() {
     let a: Vec<String> = std::env::args().collect();
     match a.get(1).map(|s| s.as_str()).unwrap_or("") {
-        "c09" => c09::main(),
         "sql" => {
             // vops2dev sql "<statement>;<statement>;..."  (each printed)  [--partitions N] [--set k=v]
             let rt = tokio::runtime::Runtime::new().unwrap();
